@@ -39,3 +39,15 @@ TEXT["C18"] = dict(
                "sampled beyond it.",
     level_note="trusts libstdc++'s std::string_view as the reference where its behaviour is defined; "
                "undefined std cases (remove_prefix beyond size, front() on empty) are not driven")
+TEXT["C15"] = dict(
+    engine="differential",
+    design_ref="DESIGN.md section 4, C15",
+    technique="runtime exhaustive zero-one enumeration + obliviousness monitor + random differential, under ASan+UBSan",
+    level_text="All 2^n zero-one inputs for n=0..16 are run through each family's size-specific network "
+               "and the dispatching entry point, ascending and descending, with identity-carrying "
+               "elements (so a duplicated/lost element is seen even when keys are in order). A recording "
+               "compare-exchange functor checks that the comparator sequence is data-independent, which "
+               "is what lets the zero-one result extend to all inputs. Random inputs of three element "
+               "types under several strict weak orders add the non-0/1 evidence.",
+    level_note="trusts the zero-one principle and the harness's order/permutation checks; CS_IfSwap is "
+               "exercised as the conditional-swap policy (the only one tlx ships)")
